@@ -179,6 +179,14 @@ class ConvContext(BaseContext):
             return {"kind": "conversion-raises", "error": err, "class": cls,
                     "from": str(q.unit), "to": str(target)}
         want = F(q.magnitude) * ratio
+        if isinstance(result.magnitude, float) and (result.magnitude != result.magnitude or result.magnitude in (float("inf"), float("-inf"))):
+            # the exact result is beyond the float range (or an intermediate product was): a float-range effect
+            # the exact model cannot exhibit and the property does not speak about
+            self.extra["outcome_histogram"]["float-overflow"] += 1
+            if abs(want) < F(10) ** 300 and not isinstance(q.magnitude, float):
+                return {"kind": "conversion-wrong", "class": cls, "from": str(q.unit), "to": str(target),
+                        "magnitude": str(q.magnitude), "got": str(result.magnitude), "want": float(want)}
+            return None
         got = F(result.magnitude)
         tol = F(1, 10**5) * (degree(q.unit) + degree(target))
         if result.unit is not target:
